@@ -3,7 +3,8 @@
    mapped to OCaml's; andb/orb inlined); Z, N, positive, nat stay the
    extracted inductive datatypes. *)
 From Strcase Require Import Base Utf8 Fold Spec FoldTables Impl Impl2 Impl3 Impl4 Impl5 Impl6 Impl7 Kernels.
-From StrcaseGen Require Consts.
+From Strcase Require X86.
+From StrcaseGen Require Consts AsmProg.
 From Coq Require Import Extraction ExtrOcamlBasic.
 Extraction Language OCaml.
 
@@ -114,6 +115,26 @@ Definition i_count_generic := count_generic.
 Definition i_count_simd := count_simd.
 Definition i_index_non_ascii_generic := index_non_ascii_generic.
 
+(* the machine model of X86.v run on the instruction lists regenerated from the .s files (the go1.22+ file set):
+   validated against the real kernels on the harness's kernel cases (argument placed at address [a], every byte
+   around it = [junkv], registers preloaded with [regv]) *)
+Inductive xres := XDone (r : option Z) | XDelegated | XFault | XFuel.
+Definition x_kernel (P : list X86.instr) (entry : nat) (a : Z) (s : bytes) (junkv regv : Z) (avx2 popcnt : bool) (c : Z) (fuel : nat)
+  : xres :=
+  match X86.run a s (fun _ => junkv) 64 avx2 popcnt c P fuel entry (X86.init (fun _ => regv)) with
+  | X86.Done r => XDone r
+  | X86.Delegated => XDelegated
+  | X86.Fault => XFault
+  | X86.Running _ _ => XFuel
+  end.
+Definition x_index_non_ascii_str := x_kernel StrcaseGen.AsmProg.prog_index_non_ascii_go122_amd64 StrcaseGen.AsmProg.entry_index_non_ascii_go122_amd64_IndexNonASCII.
+Definition x_index_non_ascii_byt := x_kernel StrcaseGen.AsmProg.prog_index_non_ascii_go122_amd64 StrcaseGen.AsmProg.entry_index_non_ascii_go122_amd64_IndexByteNonASCII.
+Definition x_index_byte_byt := x_kernel StrcaseGen.AsmProg.prog_indexbyte_go122_amd64 StrcaseGen.AsmProg.entry_indexbyte_go122_amd64_IndexByte.
+Definition x_index_byte_str := x_kernel StrcaseGen.AsmProg.prog_indexbyte_go122_amd64 StrcaseGen.AsmProg.entry_indexbyte_go122_amd64_IndexByteString.
+Definition x_count_byt := x_kernel StrcaseGen.AsmProg.prog_count_go122_amd64 StrcaseGen.AsmProg.entry_count_go122_amd64_Count.
+Definition x_count_str := x_kernel StrcaseGen.AsmProg.prog_count_go122_amd64 StrcaseGen.AsmProg.entry_count_go122_amd64_CountString.
+Definition x_nat_of_z := Z.to_nat.
+
 Extraction "model.ml"
   i_compare_str i_compare_byt i_has_prefix_unicode_str i_has_prefix_unicode_byt
   i_trim_prefix_str i_trim_prefix_byt i_cut_prefix_str i_cut_prefix_byt
@@ -129,4 +150,5 @@ Extraction "model.ml"
   s_trim_prefix s_cut_prefix s_trim_suffix s_cut_suffix s_count s_cut
   s_index_rune s_contains_rune s_index_any s_last_index_any s_contains_any
   s_index_byte s_last_index_byte s_index_byte_ascii s_index_non_ascii s_contains_non_ascii
-  s_k_index_byte s_k_count.
+  s_k_index_byte s_k_count
+  x_index_non_ascii_str x_index_non_ascii_byt x_index_byte_byt x_index_byte_str x_count_byt x_count_str x_nat_of_z.
